@@ -69,6 +69,22 @@ func (P *Prog) typeByName(name string, pkg *types.Package) (types.Type, bool) {
 		}
 	} else if pkg != nil {
 		obj = pkg.Scope().Lookup(name)
+		if obj == nil {
+			// a clause of an assumed dependency contract evaluated in a client package: the unqualified name
+			// is a type of the (unique) imported package that declares it
+			n := 0
+			for _, imp := range pkg.Imports() {
+				if o := imp.Scope().Lookup(name); o != nil {
+					if _, isType := o.(*types.TypeName); isType {
+						obj = o
+						n++
+					}
+				}
+			}
+			if n != 1 {
+				obj = nil
+			}
+		}
 	}
 	if obj == nil {
 		return nil, false
